@@ -8,18 +8,20 @@
 EXTENDS Naturals, Integers, Sequences, FiniteSets, TLC, Json
 
 Range(f) == {f[i] : i \in DOMAIN f}
-
 Last(s) == s[Len(s)]
 
 Policy == "Message rejected due to local policy"
 
+(* the answer of one pipeline command (Start / AddRcpt / Body) as internal/endpoint/smtp reads it: k = "ok", "rej" *)
+(* or "n/a" (the command was not issued); code / enchc / ench / msg = the SMTP annotations of the error           *)
+(* (exterrors.Fields: smtp_code, smtp_enchcode, smtp_msg; code 0 = none), temp = exterrors.IsTemporary            *)
 R(k, code, enchc, ench, temp, msg) == [k |-> k, code |-> code, enchc |-> enchc, ench |-> ench, temp |-> temp, msg |-> msg]
 OkR == R("ok", 0, 0, "", FALSE, "")
 NaR == R("n/a", 0, 0, "", FALSE, "")
 Rej(code, rest, msg) == R("rej", code, code \div 100, ToString(code \div 100) \o rest, (code \div 100) = 4, msg)
 Unannotated == R("rej", 0, 0, "", FALSE, "")
 
-
+(* one packet / request line / header field the scripted scanner recorded *)
 E(c, a) == [c |-> c, a |-> a]
 
 (* the body as the chunks of at most 65535 bytes the milter protocol carries; an "unreadable" body is a buffer *)
@@ -34,12 +36,13 @@ Coherent(r) == r.k = "rej" /\ (r.code = 0 \/ (r.code \in 400..599 /\ r.temp = (C
 TempRej(r) == Coherent(r) /\ ClassOf(r) = 4
 PermRej(r) == Coherent(r) /\ ClassOf(r) = 5
 
+(* the SMTP session (module.ConnState) a row is received over *)
 Conn(kind, addr, helo, auth, tls) ==
   [kind |-> kind, addr |-> addr, port |-> 41000, helo |-> helo, auth |-> auth, tls |-> tls, rdns |-> "none"]
 C4 == Conn("tcp4", "192.0.2.7", "client.sender.test", "", "none")
-
 NilConn == Conn("nil", "", "", "", "none")
 
+(* header fields: name, raw value, lower-case name, value with the folding removed *)
 F(n, v, ln, nv) == [n |-> n, v |-> v, ln |-> ln, nv |-> nv]
 Hdr2 == <<F("From", "<a@sender.test>", "from", "<a@sender.test>"), F("Subject", "verif", "subject", "verif")>>
 HdrOdd == <<F("Received", "from a\r\n\tby b;\r\n  date", "received", "from a by b; date"),
@@ -52,9 +55,8 @@ ConnKinds == {C4, Conn("mapped", "192.0.2.7", "client.sender.test", "", "none"),
               Conn("other", "", "client.sender.test", "", "none"), NilConn}
 TlsKinds == {"none", "1.0", "1.1", "1.2", "1.3"}
 
-
+(* pseudo-random draws of the mixed tables (the range of HH bounds the number of distinct rows to 32749) *)
 HH(x) == LET y == x % 32749 IN (y * y + 7 * y + 12345) % 32749
-
 Pick(seq, r) == seq[(r % Len(seq)) + 1]
 
 =============================================================================
